@@ -28,9 +28,10 @@ import math
 import random
 import re
 import struct
+import sys
 from fractions import Fraction
 
-from . import common
+from . import common, c11_tie
 from .common import lst, natlit, rlit, zlit
 
 HEADER = """From Coq Require Import Reals List Bool Arith ZArith.
@@ -654,7 +655,10 @@ def margins(cases):
             for i, (g, w) in enumerate(zip(got, want)):
                 if g == w or math.isinf(w) or math.isinf(g):
                     continue
-                lim = float(tol) * (float(step_scale(w)) if i == 0 else 1 + abs(w))
+                try:
+                    lim = float(tol) * (float(step_scale(w)) if i == 0 else 1 + abs(w))
+                except OverflowError:      # evidence only: a value near the float64 limit has no finite margin
+                    continue
                 if lim > 0:
                     worst[kind] = max(worst[kind], abs(g - w) / lim)
     return {k: round(v, 6) for k, v in worst.items()}
@@ -883,7 +887,47 @@ def emit(ctx, cases):
             for (nm, stmt) in lemmas_of(i, cases[i]):
                 body.append(f"Lemma {nm} : {stmt}.\nProof. da_close. Qed.\n")
         shards.append((ctx.new_shard(HEADER + "\n" + "\n".join(body)), idxs))
+    source_tie(ctx)
     return shards
+
+
+# ------------------------------------------------------------------------------------------------
+# second tie: the current source translated to Gallina and proved equal to the model (c11_tie.py)
+# ------------------------------------------------------------------------------------------------
+def source_tie(ctx):
+    """Runs after the Coq build (emit is only called when it succeeded).  A broken source tie alone is no
+    alarm: it is recorded in coverage.source_tie; run() adds it to ctx.broken only when the behavioural
+    correspondence or the oracle report a violation as well."""
+    try:
+        tie = c11_tie.run(ctx, common.REPO)
+    except Exception as ex:      # optional evidence; never let it abort the check
+        tie = {"translated": [], "lemmas_ok": False, "lemmas": [], "not_tied": {"all": repr(ex)},
+               "detail": f"SOURCE TIE BROKEN: c11_tie aborted: {type(ex).__name__}: {ex}"}
+    ctx.cov["source_tie"] = tie
+    for sec in tie.get("not_tied", {}):
+        ctx.hist("T.source_tie_broken." + sec)
+    ctx.hist("T.source_tie_lemmas", len(tie.get("lemmas", [])))
+    ctx.extra_tb = getattr(ctx, "extra_tb", []) + [
+        "source tie (advisory): tools/py2gallina_c11.py (fail-closed Python-ast -> Gallina translator; every number is a real number, "
+        "float literals are the decimal fractions written, jnp.log/exp/sqrt are ln/exp/sqrt, ** is Rpower, in-place field updates are "
+        "shadowing lets, lax.cond is if) and the statements of the lemmas in harness/lv/c11_tie.py; result of this run in coverage.source_tie"]
+
+
+def run(ctx):
+    orig_finish = ctx.finish
+
+    def finish(*a, **k):
+        tie = ctx.cov.get("source_tie")
+        if tie is None:
+            ctx.cov["source_tie"] = {"translated": [], "lemmas_ok": False, "detail": "not attempted: the Coq build failed"}
+        elif not tie.get("lemmas_ok") and ctx.violations:
+            # the behavioural part / the oracle disagree too: name the broken source tie in the replay files
+            for sec, why in tie.get("not_tied", {}).items():
+                if not why.startswith("needs "):
+                    ctx.broken.append(f"source tie [{sec}]: {why}"[:400])
+        return orig_finish(*a, **k)
+    ctx.finish = finish
+    return common.run_standard(ctx, sys.modules[__name__])
 
 
 def diagnose(ctx, path, idxs, cases):
